@@ -386,6 +386,17 @@ def misc_factory(quick, seed):
                           type(ag.grad_and_aux(lambda l: (l[0] * l[1], ab_.tuple(l)))([1.0, 2.0])[1]).__name__,
                           type(ag.make_vjp(lambda t: ab_.list(t))((1.0, 2.0))[1]).__name__), ("tuple", "tuple", "tuple", "list")))
 
+    _x5 = onp.array([0.7, -1.2])
+    _v5 = onp.array([1.0, 0.5])
+    PASS.append(("outer grad through make_ggnvp with a non-quadratic g (the Hessian of g is taken AT f(x), which depends on x)",
+                 lambda: ag.grad(lambda x: np.sum(ag.make_ggnvp(lambda u: u * u, lambda z: np.sum(z ** 4) / 12.0)(x)(_v5)))(_x5), 24.0 * _x5 ** 5 * _v5))
+    PASS.append(("outer deriv through make_ggnvp, the enclosing variable scales f",
+                 lambda: ag.deriv(lambda y: np.sum(ag.make_ggnvp(lambda u: y * u * u, lambda z: np.sum(z ** 4) / 12.0)(_x5)(_v5)))(1.5),
+                 float(onp.sum(4.0 * 4 * 1.5 ** 3 * _x5 ** 6 * _v5))))
+    PASS.append(("outer grad through the aux value of grad_and_aux when aux depends only on the ENCLOSING variable",
+                 lambda: ag.grad(lambda y: (lambda ga: np.sum(ga[0]) + np.sum(ga[1]))(ag.grad_and_aux(lambda x: (np.sum(x * x * y), 3.0 * np.sin(y)))(_x5)))(_x5),
+                 _x5 ** 2 * 0 + 2 * _x5 * 0 + (2 * _x5) * 1.0 * 0 + 3.0 * onp.cos(_x5) + 2 * _x5))
+
     def h(ch):
         kind = ch.choose("kind", ["must-raise", "pass-through"])
         with warnings.catch_warnings():
